@@ -1156,16 +1156,34 @@ func (e *Exec) stdlibCall(st *State, call *ast.CallExpr, fn *types.Func, key str
 	}
 	if path == "encoding/binary" && recv != nil {
 		need := map[string]int64{"Uint16": 2, "Uint32": 4, "Uint64": 8, "PutUint16": 2, "PutUint32": 4, "PutUint64": 8}[fn.Name()]
+		little := strings.Contains(recv.Ty.String(), "littleEndian")
 		if need > 0 && len(args) > 0 && args[0].T.Sort == SSlice {
 			e.oblige(st, "idx", "", Ge(SLen(args[0].T), IntLit(need)), fmt.Sprintf("encoding/binary %s: buffer holds at least %d bytes", fn.Name(), need), call.Pos())
-			e.note("stdlib", "encoding/binary little/big-endian accessors: panic iff the buffer is too short; decoded value arbitrary within its type")
+			e.note("stdlib", "encoding/binary fixed-size accessors: panic iff the buffer is too short; little-endian byte order modelled exactly (value = sum of b[i]*256^i)")
 			sig := fn.Type().(*types.Signature)
+			bt := types.Typ[types.Uint8]
+			key := elemKey(bt)
+			e.heapInit(key, bt)
+			b := args[0].T
+			byteAt := func(i int64) Term { return e.loadElem(st, b, bt, IntLit(i)) }
 			if strings.HasPrefix(fn.Name(), "Put") {
-				bt := types.Typ[types.Uint8]
-				key := elemKey(bt)
-				e.heapInit(key, bt)
-				e.havocLocs(st, []modLoc{{key: key, ref: SRef(args[0].T), lo: SOff(args[0].T), hi: Add(SOff(args[0].T), IntLit(need)), isElem: true}}, call.Pos())
+				v := e.toSort(args[1].T, SInt)
+				if !little || need > 4 {
+					e.havocLocs(st, []modLoc{{key: key, ref: SRef(b), lo: SOff(b), hi: Add(SOff(b), IntLit(need)), isElem: true}}, call.Pos())
+					return nil, true
+				}
+				e.checkFrameRange(st, key, SRef(b), SOff(b), Add(SOff(b), IntLit(need)), call.Pos())
+				for i := int64(0); i < need; i++ {
+					e.storeElem(st, b, bt, IntLit(i), Mod(Div(v, pow2(uint(8*i))), IntLit(256)))
+				}
 				return nil, true
+			}
+			if little && need <= 4 {
+				sum := byteAt(0)
+				for i := int64(1); i < need; i++ {
+					sum = Add(sum, Mul(byteAt(i), pow2(uint(8*i))))
+				}
+				return []Term{e.bind("le", sum)}, true
 			}
 			return []Term{e.havocValue(st, "le", sig.Results().At(0).Type())}, true
 		}
